@@ -4,7 +4,7 @@ x=$1
 cd /verif
 git merge --no-edit $x 2>&1 | tail -2
 if git status --short | grep -q "^DU coq/model\|^UD coq/model"; then git rm -q coq/model.ml 2>/dev/null; git rm -q coq/model.mli 2>/dev/null; rm -f coq/model.ml coq/model.mli; fi
-for f in hooks.txt MANIFEST.json; do if git status --short | grep -q "^UU $f"; then git checkout --ours $f; git add $f; fi; done
+for f in hooks.txt MANIFEST.json evidence/C*.json; do if git status --short | grep -q "^UU $f"; then git checkout --ours $f; git add $f; fi; done
 if git status --short | grep -q "^U\|^AA\|^DU\|^UD"; then echo "UNRESOLVED:"; git status --short | grep "^U\|^AA\|^DU\|^UD"; exit 1; fi
 git commit -qm "Merge branch '$x'" 2>/dev/null
 cd /repo
